@@ -231,6 +231,12 @@ def gen_history(rng, n):
                     c = pick_col(q)
                     cmds_sql.append("ALTER COLUMN %s DROP NOT NULL" % c)
                     cmds_coq.append("DropNotNull %s" % coqstr(c))
+            if rng.random() < 0.15:
+                # an action sqlc does not model (and that cannot fail for catalog reasons) in the same statement, at any position:
+                # the modelled actions of the statement still apply
+                extra = rng.choice(["ENABLE ROW LEVEL SECURITY", "SET (fillfactor = 70)", "OWNER TO CURRENT_USER", "ADD CONSTRAINT ck_%d CHECK (true)" % len(out),
+                                    "SET WITHOUT OIDS", "DISABLE TRIGGER USER"])
+                cmds_sql.insert(rng.randint(0, len(cmds_sql)), extra)
             sql = "ALTER TABLE %s%s %s;" % ("IF EXISTS " if ie2 else "", q_sql(q), ", ".join(cmds_sql))
             coq = "AlterTable %s %s %s" % (coqbool(ie2), q_coq(q), coqlist(["(%s)" % x for x in cmds_coq]))
         elif r < 0.70:
@@ -245,8 +251,8 @@ def gen_history(rng, n):
         elif r < 0.78:
             q = pick_type(existing=rng.random() < 0.05)
             if rng.random() < 0.75:
-                vals = rng.sample(LABELS, rng.randint(1, 3))
-                if rng.random() < 0.02:
+                vals = rng.sample(LABELS, rng.randint(1, 3)) if rng.random() > 0.06 else []      # an enum may be created without labels
+                if vals and rng.random() < 0.02:
                     vals.append(vals[0])
                 sql = "CREATE TYPE %s AS ENUM (%s);" % (q_sql(q), ", ".join(lit(v) for v in vals))
                 coq = "CreateEnum %s %s" % (q_coq(q), coqlist([coqstr(v) for v in vals]))
@@ -401,6 +407,11 @@ def models_check(rep, hists, res):
         got_enums = sorted(tuple(v) for v in consts.values())
         want_enums = sorted(tuple(ty["vals"]) for sc in res[i]["catalog"] if sc["name"] != "pg_catalog"
                             for ty in sc["types"] if ty["kind"] == "enum" and ty["vals"])
+        # every enum of the catalog - also one without labels - is a declared type of the package
+        n_named = len(m.get("named", []))
+        n_enums = sum(1 for sc in res[i]["catalog"] if sc["name"] != "pg_catalog" for ty in sc["types"] if ty["kind"] == "enum")
+        if n_named != n_enums:
+            rep.violation("models.go declares %d enum types, the catalog has %d" % (n_named, n_enums), {"history": hist, "named": m.get("named")})
         if got_structs != want_structs or got_enums != want_enums:
             rep.violation("models.go does not show the catalog (tables/columns or enum labels differ)",
                           {"history": hist, "structs": got_structs, "tables": want_structs, "enums": got_enums, "catalog_enums": want_enums})
@@ -491,9 +502,37 @@ def run(tier, seed):
             elif not corr:
                 rep.violation("correspondence corr:C08:catalog broken (model != implementation) although the property holds on this input",
                               {"history": [s for s, _ in h], "impl": r}, no_input=True)
+    # the catalog is the fold of the history IN THE ORDER the configuration lists the schema files (not their lexical order):
+    # histories cut in two or three files whose names sort the other way round, through cmd.Generate
+    cfgj = lambda paths: json.dumps({"version": "1", "packages": [{"path": "db", "engine": "postgresql", "schema": paths, "queries": "query.sql"}]})
+    q0 = "-- name: Ping :exec\nSELECT 1;\n"
+    jobs, meta = [], []
+    for _ in range(150 if tier == "quick" else 3000):
+        h = [s_ for s_, _ in gen_history(rng, rng.choice([3, 5, 8, 12]))]
+        k = rng.randint(1, len(h) - 1)
+        names = rng.choice([["tables.sql", "cleanup.sql"], ["z_first.sql", "a_second.sql"], ["2.sql", "10.sql"], ["b/1.sql", "a/2.sql"]])
+        parts = [h[:k], h[k:]]
+        if len(h) > 3 and rng.random() < 0.4:
+            k2 = rng.randint(k + 1, len(h) - 1) if k + 1 <= len(h) - 1 else k
+            if k2 > k:
+                parts, names = [h[:k], h[k:k2], h[k2:]], names + ["0_last.sql"]
+        single = {"sqlc.json": cfgj("schema.sql"), "schema.sql": "\n".join(h) + "\n", "query.sql": q0}
+        multi = dict({"sqlc.json": cfgj(names), "query.sql": q0}, **{nm: "\n".join(p_) + "\n" for nm, p_ in zip(names, parts)})
+        jobs += [{"op": "generate", "files": single}, {"op": "generate", "files": multi}]
+        meta.append((h, names))
+    res = run_harness(jobs)
+    for i, (h, names) in enumerate(meta):
+        a, b = res[2 * i], res[2 * i + 1]
+        rep.case(("listed-order", tuple(h), tuple(names)), nontrivial=True)
+        rep.count("listed-order:%s" % ("ok" if a.get("ok") else "rejected"))
+        va = a["out"].get("db/models.go") if a.get("ok") else "ERR"
+        vb = b["out"].get("db/models.go") if b.get("ok") else "ERR"
+        if "panic" in a or "panic" in b or va != vb:
+            rep.violation("the history applied from files listed as %s gives other models (or another verdict) than the same history in one file: the catalog is not the fold of the history in listed order" % names,
+                          {"history": h, "files": names, "single_ok": a.get("ok"), "listed_ok": b.get("ok"), "single_stderr": a.get("stderr"), "listed_stderr": b.get("stderr")})
     if getattr(rep, "proof_broken", None) and not rep.violations:
         rep.violation("proof obligation no longer checks: " + rep.proof_broken, {"theorem_file": "coq/theories/Props/C08.v", "detail": info}, no_input=True)
     return rep.finish("proof", ob, dis, checker_cmd(PROP),
-                      rule="random DDL histories (length 1..40) over 3 schemas x 4 relation names x 4 columns x 6 types x 4 labels, ~85% of the names chosen among existing objects; rendered to SQL, run through the real PostgreSQL parser + catalog.Update, compared with pg_run (reference) and build (model) inside Coq; non-trivial = at least 3 statements",
+                      rule="random DDL histories (length 1..40) over 3 schemas x 4 relation names x 4 columns x 6 types x 4 labels, ~85% of the names chosen among existing objects; rendered to SQL, run through the real PostgreSQL parser + catalog.Update, compared with pg_run (reference) and build (model) inside Coq; histories cut into 2-3 schema files whose names sort against the listed order, through cmd.Generate, against the one-file layout; non-trivial = at least 3 statements",
                       assumptions=["Spec/PgCatalog.pg_exec stands in for PostgreSQL (no server in the sandbox)",
                                    "type existence/dependency errors are outside the property and not modelled"])
